@@ -34,7 +34,26 @@ class make_block_solver {
                 const backend_params &bprm = backend_params()
                 )
         {
-            S = std::make_shared<Solver>(adapter::block_matrix<value_type>(A), prm, bprm);
+            // The block adapter needs the rows sorted by column, but the
+            // scalar input (as with make_solver) may list them in any order.
+            bool sorted = true;
+            const ptrdiff_t n = backend::rows(A);
+            for(ptrdiff_t i = 0; i < n && sorted; ++i) {
+                ptrdiff_t prev = -1;
+                for(auto a = backend::row_begin(A, i); a; ++a) {
+                    ptrdiff_t c = a.col();
+                    if (c < prev) { sorted = false; break; }
+                    prev = c;
+                }
+            }
+
+            if (sorted) {
+                S = std::make_shared<Solver>(adapter::block_matrix<value_type>(A), prm, bprm);
+            } else {
+                backend::crs<typename backend::value_type<Matrix>::type> As(A);
+                backend::sort_rows(As);
+                S = std::make_shared<Solver>(adapter::block_matrix<value_type>(As), prm, bprm);
+            }
         }
 
         template <class Matrix, class Vec1, class Vec2>
